@@ -400,92 +400,140 @@ def r2_runner(chk, rl):
                "the input files are not written (in text and binary mode as appropriate) before the commands run")
 
 
-def _exit_condition(rl):
-    """the If that decides between exit(1) and the success exit"""
-    for g in walk_no_nested(rl.node):
-        if isinstance(g, ast.If) and any(isinstance(c, ast.Call) and call_name(c) in ("exit", "sys.exit") for b in g.body for c in ast.walk(b)) and g.orelse:
-            return g
-    return None
+# --- the outcome of a run, classified over a finite model -----------------------------------------------------------------
+# worlds: fail (position of the first failing command or None) x proc.returncode of the last command run (0 iff nothing
+# failed) x (requested files Q, returned files R subseteq Q).  "success" = nothing failed and every requested file came back.
+_QR = [((), ()), (("a", "b"), ("a", "b")), (("a", "b"), ("a",)), (("a", "b"), ())]
+WORLDS = [dict(fail=f, rc=(0 if f is None else rc), Q=q, R=r) for f in (None, 0, 1) for rc in ((0,) if f is None else (1, 2)) for q, r in _QR]
+
+
+def _is_success(w):
+    return w["fail"] is None and set(w["Q"]) == set(w["R"])
+
+
+def _world_lookup(w):
+    from ..truth import Unknown
+
+    def lookup(n):
+        t = norm(n)
+        if t == "fail":
+            return w["fail"]
+        if t == "retfiles":
+            return {k: b"" for k in w["R"]}
+        if isinstance(n, ast.Attribute) and n.attr == "return_files":
+            return list(w["Q"])
+        if isinstance(n, ast.Attribute) and n.attr == "returncode":
+            return w["rc"]
+        if isinstance(n, ast.Name) and n.id not in ("set", "len", "bool", "any", "all", "sorted", "list", "tuple", "frozenset", "int", "str", "True", "False", "None"):
+            raise Unknown(f"`{n.id}` is not one of the quantities the outcome may depend on (failure position, return code, requested / returned files)")
+        return NotImplemented
+    return lookup
+
+
+def _outcome_view(rl):
+    """run_local with control-flow-decided values folded into expressions, and the environment that spells locals out"""
+    from ..canon import Env, ifexp_assignments
+
+    v = ifexp_assignments(rl)
+    return v, Env(v.node)
+
+
+def _value_table(expr, env, at, conds=()):
+    """[(world, value | None when a path condition excludes the world)], or raises AnalysisError naming what is not understood"""
+    from ..truth import Unknown, evaluate
+
+    e = env.expand(expr, keep={"fail", "retfiles", "job", "proc"}, at=at, depth=8)
+    cs = [env.expand(c, keep={"fail", "retfiles", "job", "proc"}, at=at, depth=8) for c in conds]
+    rows = []
+    for w in WORLDS:
+        lk = _world_lookup(w)
+        try:
+            live = True
+            for c in cs:
+                try:
+                    if not evaluate(c, lk):
+                        live = False
+                        break
+                except Unknown:
+                    continue  # a condition about something else: may hold
+            rows.append((w, evaluate(e, lk) if live else None, live))
+        except Unknown as u:
+            raise AnalysisError(f"run_local: `{short(e, 70)}` - {u}: not a form whose meaning can be tabulated")
+    return e, rows
+
+
+def _stmt_of(root, node):
+    """the innermost statement that contains `node`"""
+    best = None
+    for s_ in ast.walk(root):
+        if isinstance(s_, ast.stmt) and s_ is not root and any(x is node for x in ast.walk(s_)):
+            n = sum(1 for _ in ast.walk(s_))
+            if best is None or n < best[0]:
+                best = (n, s_)
+    return best[1]
+
+
+def _describe(w):
+    return ("no command failed" if w["fail"] is None else f"command {w['fail']} failed (return code {w['rc']})") + ", requested " + str(list(w["Q"])) + ", returned " + str(list(w["R"]))
 
 
 def r3_exit(chk, rl):
-    from ..canon import Env, lift_ifexp_calls
+    """`exits 0 iff every command succeeded and every requested file exists`: every exit call of run_local is tabulated -
+    the conditions under which it runs (path conditions) and the status it passes - over the worlds above."""
+    from ..canon import path_conditions
 
-    rl = lift_ifexp_calls(rl, {"exit", "sys.exit"})  # exit(1 if failed else rc)  ==  if failed: exit(1) else: exit(rc)
-    g = _exit_condition(rl)
+    v, env = _outcome_view(rl)
     key = f"{rl.key}:success-exit-only-when-everything-succeeded"
-    exits = [c for c in walk_no_nested(rl.node) if isinstance(c, ast.Call) and call_name(c) in ("exit", "sys.exit")]
+    exits = [c for c in walk_no_nested(v.node) if isinstance(c, ast.Call) and call_name(c) in ("exit", "sys.exit", "os._exit")]
     chk.require(exits, "run_local: no exit() call")
-    if g is None:
-        chk.fail("C17.R3", key, rl.where(exits[0]), "the exit status is not decided by a test of the failure position and the returned files")
-        return
-    gtest = Env(rl.node).expand(g.test, keep={"fail", "retfiles", "job"})  # a named condition (`failed = ...`) dissolves
-    t = norm(gtest)
-    def files_missing(d):
-        """True: the disjunct holds exactly when a requested file was not returned; False: it never does; None: unknown"""
-        while isinstance(d, ast.Call) and call_name(d) == "bool" and len(d.args) == 1:
-            d = d.args[0]
-        td = norm(d)
-        if td in ("set(retfiles) != set(job.return_files)", "set(job.return_files) != set(retfiles)", "len(retfiles) != len(job.return_files)", "len(job.return_files) != len(retfiles)"):
-            return True
-        if td in ("set(job.return_files) - set(retfiles)", "set(job.return_files).difference(retfiles)", "set(job.return_files).difference(set(retfiles))",
-                  "not set(job.return_files) <= set(retfiles)", "not set(job.return_files).issubset(retfiles)", "any((f not in retfiles for f in job.return_files))"):
-            return True
-        if td in ("set(retfiles) - set(job.return_files)", "set(retfiles).difference(job.return_files)", "set(retfiles).difference(set(job.return_files))"):
-            return False   # only requested files are ever returned: this difference is always empty
-        return None
-
-    disj = gtest.values if isinstance(gtest, ast.BoolOp) and isinstance(gtest.op, ast.Or) else [gtest]
-    fm = [files_missing(d) for d in disj]
-    has_fail = any(norm(d) in ("fail is not None", "fail != None") for d in disj)
-    if any(v is None for v, d in zip(fm, disj) if norm(d) not in ("fail is not None", "fail != None")):
-        unknown = [d for v, d in zip(fm, disj) if v is None and norm(d) not in ("fail is not None", "fail != None")]
-        raise AnalysisError(f"run_local: the exit test `{short(gtest, 70)}` contains `{short(unknown[0], 40)}`, which is not a known way to ask whether a requested file is missing")
-    cond_ok = has_fail and any(v is True for v in fm)
-    never = [d for v, d in zip(fm, disj) if v is False]
-    body_exit = [c for b in g.body for c in ast.walk(b) if isinstance(c, ast.Call) and call_name(c) in ("exit", "sys.exit")]
-    else_exit = [c for b in g.orelse for c in ast.walk(b) if isinstance(c, ast.Call) and call_name(c) in ("exit", "sys.exit")]
-    fail_nonzero = all(c.args and isinstance(c.args[0], ast.Constant) and c.args[0].value not in (0, None) for c in body_exit)
-    others = [c for c in exits if c not in body_exit and c not in else_exit]
-    chk.decide(cond_ok and fail_nonzero and len(else_exit) == 1 and not others, "C17.R3", key, rl.where(g),
-               f"`if {short(g.test, 70)}: exit(1) else: exit({norm(else_exit[0].args[0]) if else_exit and else_exit[0].args else ''})`",
-               f"the success exit is not guarded by both conditions (`{short(gtest, 80)}`; {len(others)} other exit call(s)): the process can exit 0 although a command failed or a requested file is missing"
-               + (f" - `{short(never[0], 50)}` is always empty (only requested files are ever returned)" if never else ""))
+    status = {id(w): set() for w in WORLDS}
+    shown = []
+    for c in exits:
+        stmt = _stmt_of(v.node, c)
+        pcs = path_conditions(v.node, stmt)
+        arg = c.args[0] if c.args else ast.Constant(0)
+        e, rows = _value_table(arg, env, stmt, pcs)
+        shown.append(short(e, 50))
+        for w, val, live in rows:
+            if live:
+                status[id(w)].add(0 if val in (None, False, 0) else (val if isinstance(val, int) else 1))
+    bad = None
+    for w in WORLDS:
+        st = status[id(w)]
+        if _is_success(w) and st != {0}:
+            bad = (w, f"exits {sorted(st) if st else 'nowhere'} although everything succeeded")
+            break
+        if not _is_success(w) and (0 in st or not st):
+            bad = (w, "exits 0" if 0 in st else "reaches no exit call")
+            break
+    missing_only = [w for w in WORLDS if w["fail"] is None and set(w["Q"]) != set(w["R"])]
+    why = ""
+    if bad and bad[0] in missing_only:
+        why = ": the test that should notice a missing requested file never does (only requested files are ever returned, so e.g. `returned - requested` / `returned <= requested` say nothing)"
+    chk.decide(bad is None, "C17.R3", key, rl.where(exits[0]),
+               f"exit status tabulated over {len(WORLDS)} outcomes ({', '.join(shown)}): 0 exactly when nothing failed and every requested file came back",
+               (f"when {_describe(bad[0])} the process {bad[1]}{why}: the process can exit 0 although a command failed or a requested file is missing" if bad else ""))
 
 
 def r4_recorded(chk, rl, rule):
-    out = calls_named(rl.node, {"ml.pipeline.JobOutput", "JobOutput"})
+    """the exit code stored in the JobOutput (what jobmap's cache test reads) is 0 exactly in the success worlds"""
+    v, env = _outcome_view(rl)
+    out = calls_named(v.node, {"ml.pipeline.JobOutput", "JobOutput"})
     chk.require(len(out) == 1, "run_local: JobOutput construction not found")
     ec = kwarg(out[0], "exitcode")
     chk.require(ec is not None, "run_local: JobOutput(exitcode=...) not found")
-    asg = assignments(rl.node)
-    p = provenance(rl.node, ec, rl.params(), asg)
-    # control dependence: assignments to the recorded value under a test of fail / retfiles count as dependence
-    ctl = set()
-    for nm in names_in(ec):
-        for g in walk_no_nested(rl.node):
-            if isinstance(g, ast.If) and any(isinstance(s, ast.Assign) and nm in stored_paths(s) for b in g.body + g.orelse for s in ast.walk(b)):
-                ctl |= names_in(g.test)
-    # data dependence through naming locals (`failed = fail is not None or ...`): closure over single-valued locals
-    from ..canon import Env
-
-    env = Env(rl.node)
-    todo, clo = list(names_in(ec) | ctl), set()
-    while todo:
-        nm = todo.pop()
-        if nm in clo:
-            continue
-        clo.add(nm)
-        v = env.single(nm)
-        if v is not None and nm not in ("fail", "retfiles"):
-            todo.extend(names_in(v))
-    deps = {t for t in p} | ctl | clo
-    has_fail = "fail" in deps
-    has_files = "retfiles" in deps
+    stmt = _stmt_of(v.node, out[0])
     key = f"{rl.key}:recorded-exitcode-tells-what-the-exit-status-tells"
-    chk.decide(has_fail and has_files, rule, key, rl.where(out[0]), "JobOutput.exitcode depends on the failure position and on the returned files",
-               f"JobOutput(exitcode={norm(ec)}) does not depend on " + " / ".join(x for x, ok in (("the failure position", has_fail), ("the set of returned files", has_files)) if not ok)
-               + ": when a requested file is missing the process exits 1 but records exitcode 0, and jobmap caches the run as a success and never repeats it")
+    e, rows = _value_table(ec, env, stmt)
+    bad = None
+    for w, val, live in rows:
+        zero = val in (None, False, 0)
+        if _is_success(w) != zero:
+            bad = (w, val)
+            break
+    chk.decide(bad is None, rule, key, rl.where(out[0]), f"JobOutput.exitcode = `{short(e, 70)}`: 0 exactly when nothing failed and every requested file came back ({len(WORLDS)} outcomes tabulated)",
+               (f"JobOutput(exitcode=`{short(e, 70)}`) is {bad[1]!r} when {_describe(bad[0])}"
+                + (": the process exits 1 but records exitcode 0, and jobmap caches the run as a success and never repeats it" if bad[1] in (0, None, False) else "")) if bad else "")
 
 
 def r5_job_codec(chk):
